@@ -223,6 +223,29 @@ def build() -> tuple[str, dict[str, Any]]:
     no_flush_after: list[str] = []
     want_read_flushes = False
     tr = Tr.first_try(f, "ssl_object_method(")
+    # the three flush sites may be written in-line (`async with send_lock: [if pending:] send_all(write_bio.read())`) or go
+    # through the helper `__flush_pending_writes([even_if_empty=True])`, whose body is checked to be that very statement
+    INLINE = "self._transport.send_all(self._write_bio.read())"
+    HELPER = "self.__flush_pending_writes("
+    hf = None
+    for n in t.trees["tls"].body:
+        if isinstance(n, ast.ClassDef) and n.name == "AsyncTLSStreamTransport":
+            hf = next((m for m in n.body if isinstance(m, ast.AsyncFunctionDef) and m.name == "__flush_pending_writes"), None)
+    helper_ok = False
+    if hf is not None:
+        htxt = ast.unparse(hf)
+        helper_ok = (INLINE in htxt and "if even_if_empty or self._write_bio.pending" in htxt
+                     and "self.__transport_send_lock.acquire()" in htxt and "self.__transport_send_lock.release()" in htxt)
+        if not helper_ok:
+            t.problems.append("__flush_pending_writes: body is not `acquire send lock; if even_if_empty or pending: send_all(read()); release`")
+
+    def has_flush(txt: str) -> bool:
+        return INLINE in txt or (helper_ok and HELPER in txt)
+
+    def flush_pos(txt: str) -> int:
+        c = [txt.index(x) for x in (INLINE, HELPER) if x in txt]
+        return min(c) if c else -1
+
     if tr is None:
         t.problems.append("_retry_ssl_method: try statement not found")
     else:
@@ -233,9 +256,10 @@ def build() -> tuple[str, dict[str, Any]]:
             inner = next((n for n in h.body if isinstance(n, ast.Try)), None)
             if inner is not None and ".readinto(self._read_bio)" in txt:
                 body_txt = "\n".join(_calls(inner.body))
-                want_read_flushes = ("if self._write_bio.pending" in body_txt and
-                                     "self._transport.send_all(self._write_bio.read())" in body_txt and
-                                     body_txt.index("send_all") < body_txt.index("readinto"))
+                # (in-line form: `if pending` inside the lock; helper form: `if pending [and nobody queued on the send lock]`
+                #  before the call, the helper re-tests inside the lock)
+                want_read_flushes = ("if self._write_bio.pending" in body_txt and has_flush(body_txt) and
+                                     flush_pos(body_txt) < body_txt.index("readinto"))
                 ok = len(inner.handlers) == 1 and not inner.finalbody and not inner.orelse
                 if ok:
                     ih = inner.handlers[0]
@@ -244,7 +268,7 @@ def build() -> tuple[str, dict[str, Any]]:
                     inner_catch = t.resolve(ih.type)
                 if ok and len(h.body) == 1:
                     act = ".wantRead"
-            elif inner is None and "self._transport.send_all(self._write_bio.read())" in txt and "readinto" not in txt \
+            elif inner is None and (INLINE in txt or (helper_ok and HELPER + "even_if_empty=True)" in txt)) and "readinto" not in txt \
                     and "write_eof" not in txt and len(h.body) == 1:
                 act = ".wantWrite"
             elif _calls(h.body) == ["self._read_bio.write_eof()", "self._write_bio.write_eof()", "raise"]:
@@ -257,14 +281,14 @@ def build() -> tuple[str, dict[str, Any]]:
         else:
             pre = orelse[:-1]
             if len(pre) == 1 and isinstance(pre[0], ast.If) and not pre[0].orelse \
-                    and "self._transport.send_all(self._write_bio.read())" in ast.unparse(pre[0]):
+                    and has_flush(ast.unparse(pre[0])):
                 test = ast.unparse(pre[0].test)
                 if test == "ssl_object_method != self._ssl_object.read":
                     no_flush_after = ["read"]
                 else:
                     t.problems.append(f"_retry_ssl_method: unsupported else-branch condition {test!r}")
-            elif len(pre) == 1 and isinstance(pre[0], ast.AsyncWith) \
-                    and "self._transport.send_all(self._write_bio.read())" in ast.unparse(pre[0]):
+            elif len(pre) == 1 and (isinstance(pre[0], ast.AsyncWith) or isinstance(pre[0], ast.Expr)) \
+                    and has_flush(ast.unparse(pre[0])):
                 no_flush_after = []
             elif not pre:
                 no_flush_after = ["handshake", "read", "unwrap"]
